@@ -57,9 +57,9 @@ fn fuel_for_instruction(instruction: &Instruction) -> u64 {
         | Instruction::PushAutoEscape
         | Instruction::PopAutoEscape => 0,
         #[cfg(feature = "multi_template")]
-        Instruction::ExportLocals => 0,
+        Instruction::ExportLocals | Instruction::LoadBlocks => 0,
         #[cfg(feature = "macros")]
-        Instruction::LoadBlocks | Instruction::BuildMacro(..) | Instruction::Return => 0,
+        Instruction::BuildMacro(..) | Instruction::Return => 0,
         _ => 1,
     }
 }
